@@ -47,7 +47,10 @@ MANIFEST = dict(
                 "(C02_nothing_wanted_nothing_possible); after every callback nothing is left for pre_select to propagate, so a handler whose "
                 "two writers are shut with nothing buffered was marked finished by that very callback and is dropped at the next "
                 "pass of the loop (C02_finished_noticed_in_callback - true only since the repair bcee896 of the defect this "
-                "check found: such a handler used to stay registered until unrelated tunnel traffic). "
+                "check found: such a handler used to stay registered until unrelated tunnel traffic), and at the level of the select loop: "
+                "after a pass in which the tunnel was readable (every handler of that end gets its callback, with any per-socket "
+                "behaviour) no handler with both writers shut and empty buffers is still marked alive "
+                "(C02_pass_notices_finished). "
                 "The model is replayed against the real classes on every run with close-order scenarios; teardown within "
                 "bounded work and absence of stuck states are checked on the real code by the real-loop drain oracle (real ssnet.runonce "
                 "passes with the environment's actual readiness)."),
